@@ -1765,19 +1765,18 @@ static char *demangle_simple(char *str)
 static char *demangle_full(char *str)
 {
 	char *symname;
-	size_t len = 64; /* minimum length */
 	int status;
 
 	/* str is not mangled C++ symbol */
 	if (str[0] != '_' || str[1] != 'Z')
 		return xstrdup(str);
 
-	__cxa_demangle(str, NULL, &len, &status);
-	if (status < 0)
+	/* the result is malloc-ed by __cxa_demangle: hand it to the caller */
+	symname = __cxa_demangle(str, NULL, NULL, &status);
+	if (status < 0 || symname == NULL) {
+		free(symname);
 		return xstrdup(str);
-
-	symname = xmalloc(len);
-	__cxa_demangle(str, symname, &len, &status);
+	}
 
 	return symname;
 }
